@@ -153,6 +153,8 @@ def build(seed, tier):
         knobs['full_traceback'] = True
     elif kn < 0.25:
         knobs['tracer'] = ro.choice(['native', 'calls'])
+    if ro.random() < 0.25:
+        knobs['entry'] = 'set_source'      # set_source(code, sections=<pattern or True>, independent=...) instead of the two calls
     return {'pieces': pieces, 'pattern': pattern, 'pname': pname, 'independent': independent, 'ops': ops, 'funcs': funcs,
             'knobs': knobs,
             'main_file': r.choice(['answer.py', 'answer.py', 'student_code.py', 'main.py']),
@@ -198,9 +200,11 @@ def execute(spec):
     MONITOR.begin(digest=True)
     MAIN_REPORT.clear()
     world.install_seeded_sets(MAIN_REPORT, 3)
-    MAIN_REPORT.contextualize(Submission(files={main_file: original}, main_file=main_file, instructor_file='instructor.py'))
-    sub = MAIN_REPORT.submission
     knobs = spec.get('knobs') or {}
+    via_set_source = knobs.get('entry') == 'set_source'
+    if not via_set_source:
+        MAIN_REPORT.contextualize(Submission(files={main_file: original}, main_file=main_file, instructor_file='instructor.py'))
+    sub = MAIN_REPORT.submission
     if knobs.get('full_traceback'):
         get_sandbox().full_traceback = True
     if knobs.get('tracer'):
@@ -232,7 +236,24 @@ def execute(spec):
         kw = {'independent': spec['independent']}
         if spec['pattern'] is not None:
             kw['pattern'] = spec['pattern']
-        guarded(o, lambda: separate_into_sections(**kw))
+        if via_set_source:
+            from pedal.source import set_source
+
+            def enter():
+                nonlocal sub
+                set_source(original, filename=main_file, sections=spec['pattern'] if spec['pattern'] is not None else True,
+                           independent=spec['independent'])
+                sub = MAIN_REPORT.submission
+            try:
+                enter()
+                o['raised'] = None
+            except BaseException as e:  # noqa
+                o['raised'] = {'cls': type(e).__name__, 'str': safe_str(e)[:100], 'where': []}
+            o['new_feedback'] = []
+            sub = MAIN_REPORT.submission
+            snap(o)
+        else:
+            guarded(o, lambda: separate_into_sections(**kw))
         src = MAIN_REPORT[TOOL_NAME]
         o['sections'] = list(src['sections']) if src.get('sections') is not None else None
         obs.append(o)
